@@ -393,6 +393,8 @@ def rule_dispatch(repo: Repo) -> List[Ob]:
         for t, reach in controlling_tests(c, node):
             if isinstance(t.ast, ast.expr):
                 facts += conjuncts(t.ast, bool(reach))
+    from ..shape import ifexp_facts
+    facts += ifexp_facts(calls[0])
     acyc = [truth for t, truth in facts if isinstance(t, ast.Attribute) and t.attr == "is_acyclic"]
     if not acyc:
         return [Ob(R, key, RS, calls[0].lineno, f.qualname, False, "the summation solver is constructed without testing that the system is acyclic: it substitutes solutions in dependency order and does not terminate / is wrong on cyclic systems")] \
